@@ -96,11 +96,7 @@ def run_history(h, debug=False, fresh=False):
     hh = dict(h)
     hh["debug"] = debug
     hh["fresh"] = fresh
-    path = core.write_tmp(json.dumps(hh))
-    try:
-        r = core.run([build.drv("lmm_driver"), path], cpu=5, wall=60, env=build.runtime_env())
-    finally:
-        os.unlink(path)
+    r = core.serve("lmm_driver", hh, cpu=5, wall=60)
     return r
 
 
